@@ -270,6 +270,53 @@ func writeDocument(e *common.Env, cfg config) (*document, error) {
 		doc.direct = append(doc.direct, refB)
 	}
 
+	// an operation SEQUENCE: objects (with strings) are Put while a stream (with strings in its dictionary) is
+	// open - they are deferred until the stream is closed; the amount written before and after varies around the
+	// Writer's 1024-byte start buffer.  Every string must be encrypted with the key of the object it is stored in.
+	{
+		sm, qm, tm := marker(e, "seqS"), marker(e, "seqQ"), marker(e, "seqT")
+		before := []int{0, 1, 100, 1000, 1023, 1024, 1025, 1500, 3000}[e.Rand.IntN(9)]
+		after := []int{0, 1, 30, 1024, 2000}[e.Rand.IntN(5)]
+		sbody := randBytes(e, before+after)
+		tbody := randBytes(e, []int{0, 5, 16, 1100}[e.Rand.IntN(4)])
+		refS, refQ, refT := w.Alloc(), w.Alloc(), w.Alloc()
+		mkS := func() pdf.Dict { return pdf.Dict{"SD": fresh(sm), "SA": pdf.Array{fresh(sm), pdf.Integer(2)}} }
+		mkQ := func() pdf.Dict { return pdf.Dict{"Q": fresh(qm), "QA": pdf.Array{fresh(qm)}} }
+		mkT := func() pdf.Dict { return pdf.Dict{"TD": fresh(tm)} }
+		ws, err := w.OpenStream(refS, mkS())
+		if err != nil {
+			return nil, err
+		}
+		if _, err := ws.Write(sbody[:before]); err != nil {
+			return nil, err
+		}
+		if err := w.Put(refQ, mkQ()); err != nil { // deferred
+			return nil, err
+		}
+		if e.Rand.IntN(2) == 0 {
+			if err := w.Put(refT, pdf.NewStream(mkT(), append([]byte{}, tbody...))); err != nil { // deferred stream object
+				return nil, err
+			}
+		} else {
+			refT = 0
+		}
+		if _, err := ws.Write(sbody[before:]); err != nil {
+			return nil, err
+		}
+		if err := ws.Close(); err != nil {
+			return nil, err
+		}
+		doc.expected[refS] = "stream" + render(mkS())
+		doc.bodies[refS] = sbody
+		doc.expected[refQ] = render(mkQ())
+		doc.direct = append(doc.direct, refS, refQ)
+		if refT != 0 {
+			doc.expected[refT] = "stream" + render(mkT())
+			doc.bodies[refT] = tbody
+			doc.direct = append(doc.direct, refT)
+		}
+	}
+
 	// an object with a larger number and a non-zero generation (both enter the object key)
 	{
 		hm := marker(e, "hi")
@@ -892,7 +939,7 @@ func (rn *run) checkDocument(cfg config) {
 	if cfg.human {
 		rn.tamper(doc)
 	}
-	if e.Thorough || R >= 5 || rn.id%3 == 0 {
+	if R >= 5 || (e.Thorough && rn.id%4 == 0) || (!e.Thorough && rn.id%3 == 0) {
 		rn.parseCases(doc)
 	}
 }
@@ -1457,7 +1504,7 @@ func main() {
 			cfgs = append(cfgs, config{version: v, user: pwClasses[1].gen(e), owner: pwClasses[2].gen(e), perm: pdf.Perm(p)})
 		}
 	}
-	extra := e.Pick(30, 1600)
+	extra := e.Pick(30, 1200)
 	for i := 0; i < extra; i++ {
 		u := pwClasses[e.Rand.IntN(len(pwClasses))].gen(e)
 		o := pwClasses[e.Rand.IntN(len(pwClasses))].gen(e)
